@@ -197,6 +197,7 @@ def body(case, res):
 def shards(tier):
     out = [{"kind": "hyp", "scheme": s, "i": 0} for s in S.SCHEMES]
     out += [{"kind": "huge", "scheme": s} for s in SP.HUGE_SCHEMES]
+    out += [{"kind": "content", "scheme": s} for s in S.SCHEMES]
     if tier == "thorough":
         out += [{"kind": "hyp", "scheme": s, "i": 1} for s in S.SCHEMES]
     return out
@@ -204,6 +205,27 @@ def shards(tier):
 
 def run_shard(spec, seed, tier):
     res = ShardResult()
+    if spec["kind"] == "content":
+        # identifiers (24 and 32 bytes) whose content is structured - among them the library's own format magics - through every wire format
+        first = {}
+        scheme = spec["scheme"]
+        for idsz, ids_seed in ((24, 8), (32, 10), (24, 12)):
+            cfg = S.default_config(scheme)
+            if "param_identifier_size" in cfg:
+                cfg["param_identifier_size"] = idsz
+            else:
+                cfg["_id_size"] = idsz
+            if scheme == "CGKO06.SSE1":
+                cfg.update(param_s=64, param_dictionary_size=8)
+            case = SP.explicit_case(scheme, cfg, [4, 3, 2], seed % 100000 + idsz, id_mode="special", id_seed=ids_seed)
+            case["process_boundary"] = idsz == 32
+            try:
+                body(case, res)
+            except Violation as v:
+                first.setdefault(v.bucket, (case, str(v)))
+        for bucket, (case, msg) in first.items():
+            res.add_violation(case, msg, bucket)
+        return res
     if spec["kind"] == "huge":
         # a posting list of 2**16 - 1 / 2**16 / 2**16 + 1 identifiers through every wire format
         first = {}
